@@ -20,6 +20,8 @@ fn base(prop: &'static str) -> Cfg {
         direct: false,
         via_adapter: false,
         late_stack: false,
+        pre_pop_front: 0,
+        init_run: 0,
         stack_mid_item: false,
         twin: false,
         prop,
@@ -177,6 +179,9 @@ fn plans(prop: &str, tier: &str) -> Vec<Plan> {
                 }
             }
             out.push(Plan { name: "c10-large", cfgs, depth: if q { 3 } else { 4 } });
+            // vectors beyond one imbl chunk (64 items), also with a first chunk that
+            // does not start at slot 0
+            out.push(Plan { name: "c10-tree", cfgs: tree_cfgs("C10", &[StageKind::Filter, StageKind::FilterMap], 2), depth: if q { 2 } else { 3 } });
             // long runs of updates between two polls (capacity above the run length)
             let mut cfgs = Vec::new();
             for kind in [StageKind::Filter, StageKind::FilterMap] {
@@ -190,6 +195,15 @@ fn plans(prop: &str, tier: &str) -> Vec<Plan> {
         }
         "C11" => {
             let kinds = [StageKind::Sort, StageKind::SortBy, StageKind::SortByKey];
+            // a run of thousands of equal items (first, so that a process that dies
+            // here - stack exhaustion in the sort - is localised at once)
+            let mut cfgs = Vec::new();
+            for kind in kinds {
+                for batched in fl {
+                    cfgs.push(Cfg { stages: vec![kind], batched, init: vec![1, 0, 2], nkeys: 3, capacity: 16, alphabet: Alphabet::NoOps, txn: false, policy: Policy::Manual, drop_vec: true, init_run: 12000, ..base("C11") });
+                }
+            }
+            out.push(Plan { name: "c11-equal-run", cfgs, depth: 1 });
             let cfgs = single_stage_cfgs("C11", &kinds, 3, if q { 2 } else { 3 }, &[16, 1], &both, &fl);
             out.push(Plan { name: "c11-single", cfgs, depth: if q { 3 } else { 4 } });
             let mut cfgs = single_stage_cfgs("C11", &kinds, 3, 2, &[1], &[Policy::Manual], &fl);
@@ -219,6 +233,7 @@ fn plans(prop: &str, tier: &str) -> Vec<Plan> {
                 }
             }
             out.push(Plan { name: "c11-bursts", cfgs, depth: if q { 3 } else { 4 } });
+            out.push(Plan { name: "c11-tree", cfgs: tree_cfgs("C11", &[StageKind::Sort, StageKind::SortBy, StageKind::SortByKey], 3), depth: if q { 2 } else { 3 } });
         }
         "C12" => {
             let menu = chain_menu();
@@ -564,10 +579,47 @@ fn plans(prop: &str, tier: &str) -> Vec<Plan> {
                 }
             }
             out.push(Plan { name: "c20-adp-chains-reduced", cfgs, depth: if q { 4 } else { 5 } });
+            out.push(Plan {
+                name: "c20-adp-tree",
+                cfgs: tree_cfgs("C20", &[StageKind::Filter, StageKind::FilterMap, StageKind::Sort, StageKind::SortBy, StageKind::Head(Lim::Static(70)), StageKind::Tail(Lim::Static(70)), StageKind::Skip(Lim::Static(3))], 3),
+                depth: if q { 2 } else { 3 },
+            });
         }
         _ => {}
     }
     out
+}
+
+/// Single stages over vectors of 66 and 131 items (imbl switches to a tree
+/// of 64-item chunks there), built up so that the first chunk starts at slot 0
+/// or - after `pop_front` calls before anybody subscribes - does not.
+fn tree_cfgs(prop: &'static str, kinds: &[StageKind], nkeys: u8) -> Vec<Cfg> {
+    let mut cfgs = Vec::new();
+    for &kind in kinds {
+        for batched in [false, true] {
+            for len in [66usize, 131] {
+                for pre in [0u8, 1, 2] {
+                    for capacity in [16usize, 1] {
+                        let init: Vec<u8> = (0..len).map(|i| ((i * 7 + i / 3) % nkeys as usize) as u8).collect();
+                        cfgs.push(Cfg {
+                            stages: vec![kind],
+                            batched,
+                            init,
+                            nkeys,
+                            capacity,
+                            alphabet: Alphabet::Large,
+                            max_len: (len + 3) as u8,
+                            policy: Policy::Manual,
+                            pre_pop_front: pre,
+                            drop_vec: true,
+                            ..base(prop)
+                        });
+                    }
+                }
+            }
+        }
+    }
+    cfgs
 }
 
 fn run_all<E: El>(cli: &ev::Cli) -> i32 {
